@@ -1,10 +1,17 @@
 import EmsModel.Core.Index
+import EmsModel.Core.IndexSpelling
 import EmsModel.Core.Proto
 /-! Line-protocol driver for C01.
 `wind  <grids> <default> <kind|-> <n>`      → `kind:j,i` | `ERR`
 `ravel <grids> <default> <kind> <comps>`    → `n` | `ERR`
 `size  <grids> <default> <kind>`            → `n` | `ERR`
-grids: `face=3x5,left=3x6` -/
+grids: `face=3x5,left=3x6`
+-- sixth round (Core/IndexSpelling.lean): the integer type an index is spelt in; conventions under a names table
+`ravelt <grids> <default> <kind> <comps> <dtype>`   → as `ravel`; `BAD` when a component is no value of the type
+`windt  <grids> <default> <kind|-> <n> <dtype>`     → as `wind`;  `BAD` when `n` is no value of the type
+`nsize  <vars> <names> <kind>`                      → `grid_size[kind]` of `ArakawaC(ds, coordinate_names=names)` | `ERR`
+`nwind  <vars> <names> <kind|-> <n>` / `nravel <vars> <names> <kind> <comps>`
+vars: `y_centre:j_centre=3:i_centre=5;x_centre:…`   names: `face=y_centre:x_centre,left=…` -/
 open Ems Ems.Proto
 
 def parseGrids? (s : String) : Option (List (Kind × List Nat)) :=
@@ -13,7 +20,78 @@ def parseGrids? (s : String) : Option (List (Kind × List Nat)) :=
     | [k, sh] => (parseNatList? sh "x").map (fun l => (k, l))
     | _ => none)
 
+-- >>> sixth round: spellings
+def parseVars? (s : String) : Option DsVars :=
+  allSome ((s.splitOn ";").map fun v =>
+    match v.splitOn ":" with
+    | name :: dims =>
+      (allSome (dims.map fun d =>
+        match d.splitOn "=" with
+        | [dn, sz] => (parseNat? sz).map (fun n => (dn, n))
+        | _ => none)).map (fun ds => (name, ds))
+    | _ => none)
+
+def parseNames? (s : String) : Option NameTable :=
+  allSome ((s.splitOn ",").map fun e =>
+    match e.splitOn "=" with
+    | [k, pair] =>
+      match pair.splitOn ":" with
+      | [lat, lon] => some (k, lat, lon)
+      | _ => none
+    | _ => none)
+
+def showWind : Option (Kind × List Nat) → String
+  | some (k, idx) => s!"{k}:{showNatList idx}"
+  | none => "ERR"
+
+def showOptN : Option Nat → String
+  | some n => toString n
+  | none => "ERR"
+
+def stepSpelling (line : String) : Option String :=
+  match words line with
+  | ["ravelt", gs, dflt, kind, comps, dt] =>
+    some <| match parseGrids? gs, parseIntList? comps, IntType.parse? dt with
+    | some grids, some comps, some t =>
+      let c : Conv := { grids := grids, default := dflt }
+      match c.ravelIndexTyped t (kind, comps) with
+      | some r => showOptN r
+      | none => "BAD"
+    | _, _, _ => "BAD"
+  | ["windt", gs, dflt, kind, n, dt] =>
+    some <| match parseGrids? gs, parseInt? n, IntType.parse? dt with
+    | some grids, some n, some t =>
+      let c : Conv := { grids := grids, default := dflt }
+      match c.windIndexTyped t (if kind == "-" then none else some kind) n with
+      | some r => showWind r
+      | none => "BAD"
+    | _, _, _ => "BAD"
+  | ["nsize", vs, ns, kind] =>
+    some <| match parseVars? vs, parseNames? ns with
+    | some vars, some names =>
+      match arakawaConv vars names with
+      | some c => showOptN (c.gridSize? kind)
+      | none => "ERR"
+    | _, _ => "BAD"
+  | ["nwind", vs, ns, kind, n] =>
+    some <| match parseVars? vs, parseNames? ns, parseInt? n with
+    | some vars, some names, some n =>
+      match arakawaConv vars names with
+      | some c => showWind (c.windIndex (if kind == "-" then none else some kind) n)
+      | none => "ERR"
+    | _, _, _ => "BAD"
+  | ["nravel", vs, ns, kind, comps] =>
+    some <| match parseVars? vs, parseNames? ns, parseIntList? comps with
+    | some vars, some names, some comps =>
+      match arakawaConv vars names with
+      | some c => showOptN (c.ravelIndex (kind, comps))
+      | none => "ERR"
+    | _, _, _ => "BAD"
+  | _ => none
+-- <<< sixth round
+
 def step (line : String) : String :=
+  if let some out := stepSpelling line then out else
   match words line with
   | ["wind", gs, dflt, kind, n] =>
     match parseGrids? gs, parseInt? n with
